@@ -109,13 +109,19 @@ def run(ctx):
     chal = []
     for user, pw in CREDS:
         for mech in mechs:
-            for kind in ["4xx_first", "5xx_first", "endless334", "n334", "unknown_prompt", "bad_b64", "nonutf8_challenge", "empty_challenge", "5xx_mid", "ok_after_9", "ok_after_10", "334_for_plain"]:
+            for kind in ["neg_first_multi"] * 6 + ["4xx_first", "5xx_first", "endless334", "n334", "unknown_prompt", "bad_b64", "nonutf8_challenge", "empty_challenge", "5xx_mid", "ok_after_9", "ok_after_10", "334_for_plain"]:
                 ehlo = G.reply(250, [b"srv", b"AUTH " + names[mech]])
                 script = [(b"220 hi\r\n", False), (ehlo, False)]
                 u334 = b"334 " + b64(rng.choice(PROMPTS_U)) + b"\r\n"
                 p334 = b"334 " + b64(rng.choice(PROMPTS_P)) + b"\r\n"
                 ef = True
-                if kind == "4xx_first":
+                if kind == "neg_first_multi":
+                    # every mechanism is on offer and one negative reply - of any code - answers the first AUTH: that is final
+                    ehlo = G.reply(250, [b"srv", b"AUTH PLAIN LOGIN XOAUTH2"])
+                    script = [(b"220 hi\r\n", False), (ehlo, False)]
+                    code = rng.choice([b"432", b"454", b"500", b"501", b"502", b"503", b"504", b"530", b"534", b"535", b"538", b"550", b"554"])
+                    script += [(code + b" 5.7.0 no\r\n", False), (b"334 VXNlcm5hbWU6\r\n", False), (b"334 UGFzc3dvcmQ6\r\n", False), (b"235 ok\r\n", False)]
+                elif kind == "4xx_first":
                     script += [(b"454 temp\r\n", False)]
                 elif kind == "5xx_first":
                     script += [(b"535-5.7.8 bad\r\n535 credentials\r\n", False)]
@@ -140,9 +146,13 @@ def run(ctx):
                 elif kind == "334_for_plain":
                     script += [(b"334 \r\n", False), (b"235 ok\r\n", False)]; ef = None
                 script += [(b"250 ok\r\n", False), (b"354 go\r\n", False), (b"250 ok\r\n", False), (b"221 bye\r\n", False), (b"221 bye\r\n", False)]
+                if kind == "neg_first_multi":
+                    order = "".join(rng.sample(mechs, 3))
+                    chal.append({"hello": b"c14.test", "script": script, "ops": [("auth", order, user, pw), ("noop",), ("quit",)], "advertised": set(mechs), "expect_fail": True, "kind": kind})
+                    continue
                 chal.append({"hello": b"c14.test", "script": script, "ops": [("auth", mech, user, pw), ("noop",), ("quit",)], "advertised": {mech}, "expect_fail": ef is True, "kind": kind})
     if ctx.tier == "quick":
-        rng.shuffle(chal); chal = chal[:200]
+        rng.shuffle(chal); chal = [c for c in chal if c["kind"] == "neg_first_multi"][:60] + [c for c in chal if c["kind"] != "neg_first_multi"][:200]
         t = scs[:]; rng.shuffle(t); scs = t[:500]
     scs += chal
     bad, parsed, ml = run_differential(ctx, scs)
